@@ -354,8 +354,9 @@ def every_n_sweep(pid, tier, rng):
     pool_vals = [0.0, -0.0, 0.0, -0.0, 1.0, -1.0, 1.0, 1.5, 1.5, -1.5, 0.25, 3.0, 2.0, 2.0, -2.0, 0.5]
     floats = {}
     for name in names:
-        if name in ("Roc", "Eft", "Cog"):
-            continue          # a zero base / zero denominator holds or divides: covered by the exact zero cases
+        if name in ("Roc", "Eft", "Cog", "Welford", "WelfordVar", "Vst", "Vsct"):
+            continue          # a zero base / zero denominator holds or divides: covered by the exact zero cases; exact repeats make flat windows, where the
+                              # Welford family shows its KNOWN f64 residue (c16-flat-vst / c16-flat-vsct: x / residue)
         lo = {"Roofing": 2, "Cyber": 6, "Pfe": 3}.get(name, 1)
         for n in (max(lo, 2), max(lo, 3), max(lo, 5)):
             for rep in range(2):
@@ -1519,6 +1520,31 @@ def run_C12(rng, tier):
             d = mk_view(rng, name, n=(3 + rng.below(6) if name == "Cti" else None))
             xs = stream(d)
             pair("affine", d, xs, [a * x + b for x in xs], (a, b))
+    # the same maps applied UPSTREAM as views of the chain (Multiply / Add over Echo and Constant) on one and the same raw stream: a wrapper that
+    # lets the raw input leak past its inner view is invariant under a map of the raw input, but not under a map placed between Echo and itself
+    def chain_pair(kind, name, a, b, prm):
+        d1 = mk_view(rng, name, n=(3 + rng.below(6) if name == "Cti" else None))
+        if is_heavy(d1):
+            return
+        inner = ("Mul", E, ("Const", a)) if b is None else ("Add", ("Mul", E, ("Const", a)), ("Const", b))
+        i_ = 1 + ARITY[name].index("v")
+        d2 = d1[:i_] + (inner,) + d1[i_ + 1:]
+        xs = stream(d1)
+        c1 = Case.simple(d1, xs, {"view": name, "regime": "base"})
+        c2 = Case.simple(d2, xs, {"view": name, "regime": kind + " (map as upstream views)"})
+        groups[kind].append((c1, c2, prm))
+        cases.extend([c1, c2])
+    for rep in range(k):
+        for name in AFFINE_INV:
+            a, b = F(1 + rng.below(12), rng.choice([1, 2, 4])), F(rng.below(200) - 100, 2)
+            chain_pair("affine", name, a, b, (a, b))
+        for name in SCALE_INV:
+            if name in ("LnReturn", "Drawdown"):
+                continue
+            a = F(1 + rng.below(12), rng.choice([1, 2, 4]))
+            chain_pair("scale_inv", name, a, None, (a, 0))
+        for name in NEGATE:
+            chain_pair("negate", name, F(-1), None, None)
     for i in range(8 * k):
         d = mk_view(rng, "Rsi")
         xs = stream(d)
